@@ -114,6 +114,9 @@ class SimRec(S.Recorder):
         self.n_orders = 0
         self.reads = readable(item)
         self.fills = []          # effective executions, in execution order (C12)
+        self.hooks = []          # position hooks: name, minute, price seen, inside-chunk-gap flag (C12 classification)
+        self.cand = None         # the raw input series (research.backtest works on a deep copy)
+        self.chunk = 1
 
     def now(self):
         from jesse.store import store
@@ -192,6 +195,13 @@ class SimRec(S.Recorder):
                 except Exception as e:
                     f += ['EXC:' + type(e).__name__, 'EXC:' + type(e).__name__]
         self.seq.append({'t': tmin(st.time), 'k': kind, 'f': f, 'h': h, 'ct': 0, 'cd': 0})
+        if hook.startswith('on_') and self.cand is not None:
+            i = tmin(st.time) - 1                      # index of the minute the hook runs in
+            c = self.cand.get(st.symbol)
+            ig = 0
+            if c is not None and 0 < i < len(c) and i % self.chunk != 0 and c[i][1] != c[i - 1][2]:
+                ig = 1
+            self.hooks.append({'h': hook, 't': tmin(st.time), 'p': hx(st.price), 'ig': ig})
 
 
 def routes_of(item):
@@ -204,6 +214,8 @@ def run_item(item):
     """one real backtest; returns dict(seq, fills, trades, balances, liq, exc, n_orders) - all TLC-readable"""
     cand, warm = build_candles(item)
     rec = SimRec(item).install()
+    rec.cand = cand
+    rec.chunk = int(item.get('chunk', 1) or 1)
     old = signal.signal(signal.SIGALRM, _on_alarm)
     signal.alarm(RUN_TIMEOUT)
     try:
@@ -214,6 +226,7 @@ def run_item(item):
         out = {'exc': 'HarnessTimeout: the backtest did not finish within %d s' % RUN_TIMEOUT, 'final': None}
         del rec.seq[5000:]
         del rec.fills[5000:]
+        del rec.hooks[5000:]
     finally:
         signal.alarm(0)
         signal.signal(signal.SIGALRM, old)
@@ -231,7 +244,7 @@ def run_item(item):
     for name, a in sorted((fin.get('accts') or {}).items()):
         for asset, v in sorted(a['assets'].items()):
             bal.append([asset, hx(v)])
-    return {'seq': rec.seq, 'fills': rec.fills, 'trades': trades, 'bal': bal,
+    return {'seq': rec.seq, 'fills': rec.fills, 'hooks': rec.hooks, 'trades': trades, 'bal': bal,
             'liq': int(fin.get('liquidations', 0) or 0), 'exc': exc, 'exc_text': (out['exc'] or '')[:200],
             'n_orders': rec.n_orders, 'capture_error': fin.get('capture_error', '')}
 
